@@ -229,6 +229,49 @@ theorem ts0_kron_invariant (s : Strategy) (q Kc : Nat) (h s2 damp2 : K) (lam2 : 
   intro ms
   rw [coeffs_embed, ts0_dense_is_embed]
 
+/-- the data of one TS0 step on the shipped prior -/
+structure Ts0Step (q d : Nat) (K : Type) where
+  h : K
+  f : (Fin (q + 1) → Fin d → K) → Fin d → K
+  Gts : Fin d → Mat (q + 1) (q + 1) K
+  Gus : Fin d → Mat (q + 1) 1 K
+  Ws : Fin d → Mat 1 1 K
+
+def Ts0Step.sliced {q d : Nat} (t : Ts0Step q d K) (Kc : Nat) (s2 damp2 : K) (lam2 : Vec d K) : FacStep (q + 1) 1 d K :=
+  { trs := fun a => Iwp.transition1 q t.h (s2 * lam2.get a)
+    lins := fun ms a => Factor.linSlice (q + 1) Kc (t.f (fun i b => (ms b).get i) a) (fun _ => 0) (ms a).get damp2
+    Gts := t.Gts, Gus := t.Gus, Ws := t.Ws }
+
+def Ts0Step.dense {q d : Nat} (t : Ts0Step q d K) (Kc : Nat) (s2 damp2 size : K) (lam2 : Vec d K) :
+    CalStep ((q + 1) * d) (1 * d) K :=
+  { tr := Iwp.transitionDense q d t.h s2 lam2
+    lin := fun x => Factor.linDense (q + 1) d Kc (t.f (coeffs x)) (fun _ _ _ => 0) (coeffs x) damp2
+    Gt := embedMat t.Gts, Gu := embedMat t.Gus, W := embedMat t.Ws, size := size }
+
+/-- **ts0_kron_invariant, whole runs.** For every number of steps, step sizes, fields and strategy: all states
+visited by the dense TS0 run from an embedded state are the embeddings of the states visited by the sliced
+(isotropic / block-diagonal) TS0 run. -/
+theorem ts0_kron_invariant_run (s : Strategy) (q Kc : Nat) (s2 damp2 size : K) (lam2 : Vec d K)
+    (sts : Fin d → SolState (q + 1) K) (steps : List (Ts0Step q d K)) :
+    Calib.states s (embedState sts) (steps.map fun t => t.dense Kc s2 damp2 size lam2)
+      = (Factor.runSlices s sts (steps.map fun t => t.sliced Kc s2 damp2 lam2)).map embedState := by
+  have h := embed_run s sts
+    (steps.map fun t => (t.sliced Kc s2 damp2 lam2,
+      fun x => Factor.linDense (q + 1) d Kc (t.f (coeffs x)) (fun _ _ _ => 0) (coeffs x) damp2)) size
+    (by
+      intro p hp ms
+      simp only [List.mem_map] at hp
+      obtain ⟨t, _, rfl⟩ := hp
+      simp only [Ts0Step.sliced]
+      rw [coeffs_embed, ts0_dense_is_embed])
+  simp only [List.map_map, Function.comp_def] at h
+  rw [← h]
+  congr 1
+  apply List.map_congr_left
+  intro t _
+  simp only [FacStep.toDense, Ts0Step.dense, Ts0Step.sliced]
+  rw [iwp_dense_is_embed]
+
 /-- the posterior covariance of a step does not depend on the mean or the offset of the linearisation -/
 theorem step_cov_indep (s : Strategy) (tr : PCond n n K) (c c' : Cond k n K)
     (st st' : SolState n K) (Gt : Mat n n K) (Gu : Mat n k K)
@@ -308,6 +351,47 @@ theorem dense_iso_all_modes_dynamic_step (s : Strategy) (tr1s trSs : Fin d → P
       (fun a => (s.predict (trSs a) (sts a) (Gts a)).u) Gus
     simp only [embedGauss] at this
     rw [this]
+
+/-- **dense_iso_all_modes (dynamic), one full step**: the dense `solver_dynamic.step` on the embedded state returns
+the embedding of the isotropic dynamic step and the same local scale². -/
+theorem dense_iso_all_modes_dynamic (s : Strategy) (f : FacDynStep n k d K)
+    (LIN : Vec (n * d) K → Cond (k * d) (n * d) K) (hLIN : ∀ ms, LIN (embedVec ms) = embedCond (f.lins ms))
+    (sts : Fin d → SolState n K) :
+    Calib.stepDynamic s (f.toDense LIN ((Factorisation.dense.rmsSize k d : ℕ) : K)) (embedState sts)
+      = (embedState (Factor.stepIsoDynamic s f ((Factorisation.iso.rmsSize k d : ℕ) : K) sts).1,
+         (Factor.stepIsoDynamic s f ((Factorisation.iso.rmsSize k d : ℕ) : K) sts).2) := by
+  simp only [Calib.stepDynamic, Factor.stepIsoDynamic, FacDynStep.toDense]
+  rw [dense_iso_all_modes_dynamic_scale (f.trOfs 1) f.lins LIN hLIN sts f.Ws, vsum_eq,
+    dense_iso_all_modes_dynamic_step s (f.trOfs 1) _ f.lins LIN hLIN]
+
+/-- **dense_iso_all_modes (dynamic), whole runs**, by induction over the steps -/
+theorem dense_iso_all_modes_dynamic_run (s : Strategy) (sts : Fin d → SolState n K)
+    (steps : List (FacDynStep n k d K × (Vec (n * d) K → Cond (k * d) (n * d) K)))
+    (hLIN : ∀ p ∈ steps, ∀ ms, p.2 (embedVec ms) = embedCond (p.1.lins ms)) :
+    Calib.runDynamic s (embedState sts) (steps.map fun p => p.1.toDense p.2 ((Factorisation.dense.rmsSize k d : ℕ) : K))
+      = (Factor.runIsoDynamic s ((Factorisation.iso.rmsSize k d : ℕ) : K) sts (steps.map (·.1))).map
+          (fun r => (embedState r.1, r.2)) := by
+  induction steps generalizing sts with
+  | nil => rfl
+  | cons p rest ih =>
+    have hp := hLIN p (List.mem_cons_self ..)
+    have hr : ∀ p' ∈ rest, ∀ ms, p'.2 (embedVec ms) = embedCond (p'.1.lins ms) :=
+      fun p' h => hLIN p' (List.mem_cons_of_mem _ h)
+    simp only [List.map_cons, Calib.runDynamic, Factor.runIsoDynamic]
+    rw [dense_iso_all_modes_dynamic s p.1 p.2 hp]
+    congr 1
+    exact ih _ hr
+
+/-- **dense_iso_all_modes (MLE), whole runs**: the running squared scale of the dense MLE run is the fold over the
+isotropic terms (pooled slice energies over `k·d`), hence the same reported scale with and without correction. -/
+theorem dense_iso_all_modes_mle_run (s : Strategy) (sts : Fin d → SolState n K)
+    (steps : List (FacStep n k d K × (Vec (n * d) K → Cond (k * d) (n * d) K)))
+    (hLIN : ∀ p ∈ steps, ∀ ms, p.2 (embedVec ms) = embedCond (p.1.lins ms)) :
+    (Calib.runMle s (embedState sts) 0 0
+        (steps.map fun p => p.1.toDense p.2 ((Factorisation.dense.rmsSize k d : ℕ) : K))).2
+      = Solver.mleFold 0 0 ((Factor.runEnergies s sts (steps.map (·.1))).map
+          (fun e => Calib.rms2 ((Factorisation.iso.rmsSize k d : ℕ) : K) (∑ a, e a))) := by
+  rw [C04.runMle_eq_fold, embed_run_terms s sts steps _ hLIN, rmsSize_dense_iso]
 
 /-! ## the block-diagonal MLE scale is the per-dimension split of the same residual energy -/
 
